@@ -95,4 +95,25 @@ def splitAtPoints (segs : List (Seg K)) (cuts : List (List K)) : List (Seg K) :=
 def addExtremes (sqrt : K → K) (segs : List (Seg K)) : List (Seg K) :=
   splitAtPoints segs (segs.map (extremes sqrt))
 
+/-- the dict of `splitAtPoints` read at `s`: every cut parameter given for a segment EQUAL to `s` (the dict is keyed by the segment's
+    value), in the order given -/
+def cutsFor [DecidableEq K] (segs : List (Seg K)) (cuts : List (List K)) (s : Seg K) : List K :=
+  ((segs.zip cuts).filter fun e => e.1 = s).flatMap (·.2)
+
+/-- `splitAtPoints` for any path, repeated segments included: every occurrence of a segment is cut at the sorted parameters of its
+    dict entry (the repaired code works on a copy of the entry per occurrence: F28) -/
+def splitAtPointsDict [DecidableEq K] (segs : List (Seg K)) (cuts : List (List K)) : List (Seg K) :=
+  (segs.map fun s => cutSeg s (sort (cutsFor segs cuts s))).flatten
+
+/-- the pinned walk: an entry is consumed by the first occurrence of its segment, later occurrences find it empty -/
+def splitAtPointsPinned [DecidableEq K] : List (Seg K) → List (Seg K × List K) → List (Seg K)
+  | [], _ => []
+  | s :: rest, dict =>
+    match dict.find? (fun e => e.1 = s) with
+    | none => s :: splitAtPointsPinned rest dict
+    | some e => cutSeg s (sort e.2) ++ splitAtPointsPinned rest (dict.map fun e' => if e'.1 = s then (e'.1, []) else e')
+
+def addExtremesDict [DecidableEq K] (sqrt : K → K) (segs : List (Seg K)) : List (Seg K) :=
+  splitAtPointsDict segs (segs.map (extremes sqrt))
+
 end Extremes
